@@ -1,9 +1,9 @@
 /* C12: realize_sparse (lib/sqfs/src/io/ostream.c) - a pending hole of
  * sparse_count bytes becomes exactly sparse_count zero bytes on the stream
  * (SQFS_FILE_OPEN_NO_SPARSE) or one seek over sparse_count bytes, whatever
- * way write(2) splits the zero-fill chunks. Both loops (the chunk loop here
- * and the retry loop of write_all) carry loop contracts: any hole size, any
- * number of short writes.
+ * way write(2) splits the zero-fill chunks. The chunk loop carries a loop
+ * contract (any hole size); write_all is replaced by its contract, proved in
+ * write_all.c: it may accept any prefix of each chunk.
  *
  *  C12.sparse.call_args      every write offers <= min(1024, bytes of the hole
  *                            still missing), on the right fd
@@ -32,6 +32,7 @@ static void c12_write_pre(int fd, const void *buf, size_t n)
 		     n <= g_hole - g_total && g_total < g_hole,
 		     "C12.sparse.call_args");
 }
+#include "C12/c12_ostream_contracts.h"
 
 int sqfs_native_file_seek(sqfs_file_handle_t fd, sqfs_s64 offset,
 			  sqfs_u32 flags)
@@ -84,7 +85,9 @@ void harness(void)
 	} else {
 		VERIF_ASSERT(g_hard || g_zero || g_seek_failed ||
 			     ret == SQFS_ERROR_ALLOC, "C12.sparse.fail");
-		VERIF_ASSERT(g_seeked == 0 && g_total <= g_hole,
+		VERIF_ASSERT(g_seeked == 0 && g_total <= g_hole &&
+			     f.sparse_count <= g_hole &&
+			     f.sparse_count >= g_hole - g_total,
 			     "C12.sparse.fail");
 	}
 	if (g_w < g_total)
